@@ -1,11 +1,73 @@
-//! C16 — not built yet.
+//! C16 — get_key on maps whose values increase with the keys.
 use crate::common::*;
+use crate::core::*;
+use fst::raw::Fst;
+
 pub struct P;
+
 impl Prop for P {
-    fn generate(&self, _tier: Tier, _rng: &mut Rng, _stats: &mut Stats) -> Vec<String> {
-        vec![]
+    fn generate(&self, tier: Tier, rng: &mut Rng, stats: &mut Stats) -> Vec<String> {
+        let nrand = match tier { Tier::Quick => 300, Tier::Thorough => 5000, Tier::Wide => 1200 };
+        let mut cases = vec![];
+        let mut sets = crate::c02::standard_keysets(tier, rng, stats, nrand);
+        sets.retain(|ks| ks.len() <= 300);
+        for ks in sets {
+            for start_zero in [true, false] {
+                let vals = increasing_values(ks.len(), rng, start_zero);
+                let kvs = with_values(&ks, &vals);
+                let mut qs: Vec<u64> = vec![0, 1, u64::MAX, u64::MAX - 1];
+                for &v in &vals {
+                    qs.push(v);
+                    qs.push(v.wrapping_add(1));
+                    qs.push(v.wrapping_sub(1));
+                }
+                for _ in 0..6 {
+                    qs.push(rng.next());
+                    qs.push(rng.below(100));
+                }
+                qs.sort();
+                qs.dedup();
+                stats.add("queries", qs.len() as u64);
+                if ks.first().map(|k| k.is_empty()).unwrap_or(false) {
+                    stats.bump(if start_zero { "with_empty_key_value0" } else { "with_empty_key_nonzero" });
+                }
+                cases.push(format!("getkey {} ; {}", fmt_ops(&map_ops(&kvs)), qs.iter().map(|q| q.to_string()).collect::<Vec<_>>().join(" ")));
+            }
+        }
+        cases
     }
-    fn execute(&self, _case: &str) -> String {
-        String::new()
+    fn nontrivial(&self, case: &str) -> bool {
+        case.contains(',')
+    }
+    fn execute(&self, case: &str) -> String {
+        let rest = &case["getkey ".len()..];
+        let mut it = rest.split(';');
+        let ops = parse_ops(it.next().unwrap().trim());
+        let qs: Vec<u64> = it.next().unwrap().trim().split(' ').filter(|s| !s.is_empty()).map(|s| s.parse().unwrap()).collect();
+        let out = exec_build("extend", "raw_loop", 0, 10_000, 2, &ops);
+        let f = Fst::new(out.bytes.unwrap()).unwrap();
+        let mut x = String::from("ok");
+        let mut res = vec![];
+        for &q in &qs {
+            let g = f.get_key(q);
+            // get_key_into appends to the caller's buffer
+            let mut buf = b"pre".to_vec();
+            let found = f.get_key_into(q, &mut buf);
+            match &g {
+                Some(k) => {
+                    if !found || buf != [b"pre".to_vec(), k.clone()].concat() {
+                        x = format!("get_key_into({}) found={} buf={} but get_key={}", q, found, hex(&buf), hex(k));
+                    }
+                }
+                None => {
+                    if found {
+                        x = format!("get_key_into({}) returned true but get_key is None", q);
+                    }
+                }
+            }
+            res.push(g.map(|k| hex(&k)).unwrap_or("~".into()));
+        }
+        let s = res.join(",");
+        format!("S:{}\tM:{}\tX:{}", s, s, x)
     }
 }
